@@ -119,3 +119,26 @@ MUTANTS += [
    "        if e.size != size or e.checksums != checksums:\n            e.size = size",
    "        if e.size != size or e.checksums != checksums:\n            e.size = e.size if e.size else size")]),
 ]
+
+CP = 'gemato/compression.py'
+MUTANTS += [
+ # ---- C12
+ dict(id='c12-always-changed', props=['C12'], edits=[(VF,
+   "            e.checksums = checksums\n            return True\n        return False",
+   "            e.checksums = checksums\n            return True\n        return True")]),
+ dict(id='c12-sort-top-only', props=['C12'], edits=[(RL,
+   "                unc_size = self.save_manifest(mpath, sort=sort)",
+   "                unc_size = self.save_manifest(mpath, sort=(sort and mpath == self.top_level_manifest_filename))")]),
+ dict(id='c12-lt-tag-only', props=['C12'], edits=[(MF,
+   "        return (self.tag < other.tag\n                or (self.tag == other.tag and self.path < other.path))",
+   "        return self.tag < other.tag")]),
+ dict(id='c12-gzip-mtime', props=['C12'], edits=[(CP,
+   "return gzip.GzipFile(fileobj=f, mode=mode, filename='', mtime=0)",
+   "return gzip.GzipFile(fileobj=f, mode=mode, filename='')")]),
+ dict(id='c12-force-always', props=['C12'], edits=[(RL,
+   "            if force or mpath in self.updated_manifests:\n                unc_size",
+   "            if True:\n                unc_size")]),
+ dict(id='c12-new-entry-order-leaks', props=['C12'], edits=[(MF,
+   "        if sort:\n            self.entries = sorted(self.entries)",
+   "        if sort and len(self.entries) < 4:\n            self.entries = sorted(self.entries)")]),
+]
